@@ -197,7 +197,7 @@ Theorem frames_decode ver phone cs k cmd body :
     m_id m = (if cmd =? 0 then 2 else cmd) /\
     m_bcd m = phone_bcd ver phone /\ strip0 (phone_of m) = strip0 (map dchar phone) /\
     m_ver m = (if ver =? V2019 then 1 else 0) /\ m_frag m = 0 /\ m_enc m = 0 /\
-    m_serial m = N.of_nat (S k) mod 65536 /\ m_body m = body /\ m_len m = len body.
+    m_serial m = N.of_nat (S k) mod 65536 /\ m_body m = body /\ m_len m = len body /\ m_sum m = 0.
 Proof.
   intros Hd Hl Hn Hc Hb.
   exists (sim0 ver phone). eexists. eexists.
@@ -205,7 +205,7 @@ Proof.
   split. rewrite (create_all_nth cs _ _ _ _ Hn). reflexivity.
   cbn [sim0 t_pv t_hdr t_ps]. rewrite encode_pv_eq by apply sim_hdr_pv.
   split. apply decode_encode; auto using sim_hdr_decoded. lia.
-  unfold encoded_msg. cbn [m_id m_bcd m_ver m_frag m_enc m_serial m_body m_len sim_hdr].
+  unfold encoded_msg. cbn [m_id m_bcd m_ver m_frag m_enc m_serial m_body m_len m_sum sim_hdr].
   repeat split; auto.
   - unfold phone_of. cbn [m_bcd]. rewrite strip0_bcd2dec. unfold phone_bcd. fold (padded ver phone).
     rewrite bcd_convert_pack.
@@ -251,7 +251,7 @@ Theorem calls_frames_decode ver phone cs k cmd body :
     m_id m = (if cmd =? 0 then 2 else cmd) /\
     m_bcd m = phone_bcd ver phone /\ strip0 (phone_of m) = strip0 (map dchar phone) /\
     m_ver m = (if ver =? V2019 then 1 else 0) /\ m_frag m = 0 /\ m_enc m = 0 /\
-    m_serial m = N.of_nat (S k) mod 65536 /\ m_body m = body /\ m_len m = len body.
+    m_serial m = N.of_nat (S k) mod 65536 /\ m_body m = body /\ m_len m = len body /\ m_sum m = 0.
 Proof.
   intros Hd Hl Hn Hc Hb.
   destruct (frames_decode ver phone (effective ver cs) k cmd body Hd Hl Hn Hc Hb) as (t & f & m & W & N1 & R).
@@ -457,3 +457,40 @@ Lemma example_expected_reply :
   exists r, map wire_bytes (writes (run (dm f))) = [r] /\
             snd (expected_reply (sim0 V2013 [7; 5; 0; 9]) 0 f) = Some r.
 Proof. eexists. split; vm_compute; reflexivity. Qed.
+
+(* a generated frame is never a fragment: as a delivered message it is complete (the hypothesis
+   has_complete of expected_reply_is_server_reply) *)
+Lemma unfragmented_complete d : m_sum (d_m d) = 0 -> has_complete d = true.
+Proof. intros H. unfold has_complete. rewrite H. reflexivity. Qed.
+
+(* all 72 default bodies fit a frame *)
+Theorem default_bodies_fit ver cmd b : default_body ver cmd = Some b -> (length b <= 1023)%nat.
+Proof.
+  intros H. unfold default_body in H.
+  assert (I : In ((ver, cmd), b) default_bodies).
+  { revert H. generalize default_bodies. induction l as [|[[v c] x] l IH]; cbn [assoc2]; intros H. discriminate.
+    destruct ((v =? ver) && (c =? cmd)) eqn:E.
+    - apply andb_true_iff in E. destruct E as [E1 E2]. apply N.eqb_eq in E1. apply N.eqb_eq in E2.
+      inversion H; subst. now left.
+    - right. auto. }
+  pose proof default_bodies_short as A. rewrite forallb_forall in A. specialize (A _ I). cbn [snd] in A.
+  now apply Nat.leb_le.
+Qed.
+
+(* NOT repaired (known finding C20/body-over-1023): CreateCommandData does not refuse a body that does
+   not fit the 10-bit length field; Header.Encode ORs the unmasked length into the attribute word, so a
+   1024-byte body sets the encryption bit and announces length 0: the frame is rejected by the decoder *)
+Definition ex_long_frame : list N := snd (create_command (sim0 V2013 [1]) 0x0900 (repeat 0 1024)).
+Lemma refuted_body_over_1023 : decode ex_long_frame = Err E_BODY_LEN.
+Proof. vm_compute. reflexivity. Qed.
+
+(* a 2019 authentication too short for its fixed fields, generated by the simulator itself: no reply
+   predicted, none written (instance of expected_no_reply_too_short) *)
+Definition ex_short_0102 : list N := snd (create_command (sim0 V2019 [1]) 0x0102 [1; 2]).
+Lemma example_expected_no_reply :
+  match dm ex_short_0102 with
+  | [d] => m_id (d_m d) = 0x0102 /\ auth_too_short (d_m d) = true /\
+           snd (expected_reply (sim0 V2019 [1]) 7 ex_short_0102) = None /\ writes (run [d]) = []
+  | _ => False
+  end.
+Proof. vm_compute. repeat split; reflexivity. Qed.
